@@ -176,6 +176,8 @@ class Inventory:
         self.callgraph = None
         self.memo: List[Tuple[str, str, bool, List[str]]] = []   # (function, decorator, every return expression immutable, the return expressions)
         self.cached_props: List[str] = []                         # functools.cached_property: per INSTANCE (stored in the instance dict)
+        self.handed_out: List[Tuple[str, str, str, str]] = []     # (run-time written container, function, how, return expression)
+        self.stored: List[Tuple[str, str, bool, str]] = []        # (run-time written container, function, stored value immutable, expression)
 
     def entry(self, name: str, kind: str, mutable: bool, how: str):
         e = self.entries.setdefault(name, {"kind": kind, "mutable": mutable, "import_writes": [], "writers": set(), "readers": set(),
@@ -524,6 +526,75 @@ def build() -> Inventory:
                     elif isinstance(n, (ast.If, ast.Try, ast.With, ast.For, ast.While)):
                         visit_c([x for x in ast.iter_child_nodes(n) if isinstance(x, ast.stmt)], prefix)
             visit_c(m.tree.body, "")
+    # ---- pass 3c: CACHES BEHIND HELPERS: a function that returns a module-level / class-level container that is written at run time, or an
+    # element of it (`return CACHE`, `return CACHE[k]`, `CACHE.get(k)`, `CACHE.setdefault(k, …)`, also through a local name bound to one of
+    # these), hands a process-wide object to its caller. Harmless only if what is stored is immutable: every run-time store into the
+    # container (`CACHE[k] = v`, `.setdefault(k, v)`, `.append(v)`, `.update(…)`) is classified syntactically like a memoised return value.
+    runtime_containers = {n: e for n, e in inv.entries.items() if e["writers"] and e["kind"] in ("module-mutable", "class-mutable", "classvar",
+                                                                                                   "class-assigned-in-function")}
+    if runtime_containers:
+        short: Dict[str, List[str]] = {}
+        for n in runtime_containers:
+            short.setdefault(n.split(":")[1].split(".")[-1], []).append(n)
+
+        encl_box: List[Optional[str]] = [None]
+
+        def names_entry(x: ast.AST) -> List[str]:
+            """entries that the expression `x` denotes (NAME, Class.NAME, cls.NAME / self.NAME of the enclosing class or an ancestor)"""
+            if isinstance(x, ast.Name):
+                return [n for n in short.get(x.id, []) if inv.entries[n]["kind"] == "module-mutable"]
+            if isinstance(x, ast.Attribute) and isinstance(x.value, ast.Name):
+                recv = x.value.id
+                if recv in ("cls", "self"):
+                    o = owner_of(encl_box[0], x.attr) if encl_box[0] else None
+                    return [o] if o in runtime_containers else []
+                if recv in classes:
+                    o = owner_of(recv, x.attr)
+                    return [o] if o in runtime_containers else []
+            return []
+
+        def element_of(x: ast.AST) -> List[Tuple[str, str]]:
+            """(entry, how) if `x` evaluates to the container itself or to something stored in it"""
+            hit = [(n, "container-itself") for n in names_entry(x)]
+            if isinstance(x, ast.Subscript):
+                hit += [(n, "element") for n in names_entry(x.value)]
+            if isinstance(x, ast.Call) and isinstance(x.func, ast.Attribute) and x.func.attr in ("get", "setdefault", "pop", "copy", "values", "items"):
+                how = "shallow-copy" if x.func.attr == "copy" else "element"
+                hit += [(n, how) for n in names_entry(x.func.value)]
+            return hit
+        for m in mods:
+            def visit_h(body, prefix: str, encl: Optional[str] = None):
+                for n in body:
+                    if isinstance(n, ast.ClassDef):
+                        visit_h(n.body, prefix + n.name + ".", n.name)
+                    elif isinstance(n, (ast.FunctionDef, ast.AsyncFunctionDef)):
+                        fq = f"{m.name}:{prefix}{n.name}"
+                        encl_box[0] = encl
+                        local: Dict[str, List[Tuple[str, str]]] = {}
+                        for x in _walk_same_scope(n):
+                            if isinstance(x, ast.Assign) and len(x.targets) == 1 and isinstance(x.targets[0], ast.Name):
+                                h = element_of(x.value)
+                                if h:
+                                    local[x.targets[0].id] = h
+                            # run-time stores: is the stored value immutable?
+                            if isinstance(x, ast.Assign):
+                                for t in x.targets:
+                                    if isinstance(t, ast.Subscript):
+                                        for en in names_entry(t.value):
+                                            inv.stored.append((en, fq, _immutable_expr(x.value), ast.unparse(x.value)[:60]))
+                            if isinstance(x, ast.Call) and isinstance(x.func, ast.Attribute) and x.func.attr in ("setdefault", "append", "add", "insert") and x.args:
+                                for en in names_entry(x.func.value):
+                                    v = x.args[-1]
+                                    inv.stored.append((en, fq, _immutable_expr(v), ast.unparse(v)[:60]))
+                        for x in _walk_same_scope(n):
+                            if isinstance(x, ast.Return) and x.value is not None:
+                                h = element_of(x.value) + (local.get(x.value.id, []) if isinstance(x.value, ast.Name) else [])
+                                for (en, how) in h:
+                                    inv.handed_out.append((en, fq, how, ast.unparse(x.value)[:60]))
+                        visit_h(n.body, prefix + n.name + ".", encl)
+                    elif isinstance(n, (ast.If, ast.Try, ast.With, ast.For, ast.While)):
+                        visit_h([x for x in ast.iter_child_nodes(n) if isinstance(x, ast.stmt)], prefix, encl)
+            visit_h(m.tree.body, "")
     # ---- pass 4: static call graph: what can run before from_config's write; which writers run whenever from_config runs
     inv.reach = reach_before_write(inv, mods, classes)
     always = inv.callgraph.unconditional_closure(ANCHOR) if inv.callgraph is not None else set()
@@ -1000,6 +1071,12 @@ def emit() -> str:
               ", ".join(f"({_s(q)}, {_s(d)}, {'true' if imm else 'false'}, {_l(r)})" for q, d, imm, r in sorted(inv.memo)) + "]",
               "/-- functools.cached_property sites (cached per INSTANCE, in the instance's own dict) -/",
               "def cachedProperties : List String := " + _l(sorted(inv.cached_props))]
+    lines += ["", "/-- functions that RETURN a run-time written module-level / class-level container or an element of it: (entry, function, how, expr) -/",
+              "def handedOut : List (String × String × String × String) := [" +
+              ", ".join(f"({_s(a)}, {_s(b)}, {_s(c)}, {_s(d)})" for a, b, c, d in sorted(set(inv.handed_out))) + "]",
+              "/-- run-time stores into such a container: (entry, function, the stored value is syntactically immutable, expr) -/",
+              "def storedValues : List (String × String × Bool × String) := [" +
+              ", ".join(f"({_s(a)}, {_s(b)}, {'true' if c else 'false'}, {_s(d)})" for a, b, c, d in sorted(set(inv.stored))) + "]"]
     lines += ["", "/-- `setattr(<class>, <non-literal name>, …)` sites: writes the inventory cannot attribute -/",
               "def dynamicClassWrites : List (String × String) := [" + ", ".join(f"({_s(f)}, {_s(c)})" for f, c in sorted(set(inv.dynamic_writes))) + "]"]
     lines += ["", "/-- the last identifier (function / method name) of every entry of `fns`, same order -/",
